@@ -488,6 +488,23 @@ func (c *fnCtx) mergeInto(b *ssa.BasicBlock) *State {
 			c.assume(st, fmt.Sprintf("(forall ((r Ref)) (! (=> %s (= (select %s r) (select %s r))) :pattern ((select %s r))))", cond, hn, pre[m], hn))
 		}
 	}
+	// a function with a modifies clause keeps its frame at every loop head (checked at the back edges)
+	if c.con != nil && c.con.HasMod && !c.con.ModAll && !all {
+		whole, precise := c.modSpec()
+		for _, m := range mods {
+			if whole[m] {
+				continue
+			}
+			srt := c.compSort(m)
+			h0 := c.comp(c.entry, m, srt)
+			hn := c.comp(st, m, srt)
+			if h0 == hn {
+				continue
+			}
+			li.frameComps = append(li.frameComps, m)
+			c.assume(st, fmt.Sprintf("(forall ((r Ref)) (! (=> %s (= (select %s r) (select %s r))) :pattern ((select %s r))))", c.frameCond(m, "r", precise), hn, h0, hn))
+		}
+	}
 	autoGhost := map[string]string{}
 	for gk := range c.loopGhostMods(li) {
 		mentioned := false
@@ -749,6 +766,24 @@ func (c *fnCtx) checkBackEdge(from, to *ssa.BasicBlock, st *State, ec string) {
 				c.abort("%s: bodyensures: %v", be.Pos, err)
 			}
 			c.oblige(bst, fmt.Sprintf("body:%d", li.ordinal), t, be.Text, be.Props, to.Instrs[0].Pos())
+		}
+	}
+	// frame kept across one iteration
+	if len(li.frameComps) > 0 {
+		_, precise := c.modSpec()
+		for _, m := range li.frameComps {
+			srt := c.compSort(m)
+			h0 := c.comp(c.entry, m, srt)
+			hb := c.comp(st, m, srt)
+			if hb == h0 {
+				continue
+			}
+			x := c.fresh("fx")
+			c.declare(x, "Ref")
+			bst := st.clone()
+			bst.cur = ec
+			c.oblige(bst, fmt.Sprintf("frame-inv:%d:%s", li.ordinal, m), sImp(c.frameCond(m, x, precise), sEq(app("select", hb, x), app("select", h0, x))),
+				"the loop body changes "+m+" only where the modifies clause allows", c.propsFor(nil), to.Instrs[0].Pos())
 		}
 	}
 	// automatic ghost-balance candidates
@@ -1124,6 +1159,64 @@ func isConstLike(v ssa.Value) bool {
 // frameObligations checks the body against its modifies clause: for every heap
 // component the function (or a callee) may have written, every location that
 // existed on entry and is not named by the clause holds its entry value.
+// modSpec resolves the function's modifies clause: components that may change anywhere
+// (whole) and components that may change only at given references (precise).
+func (c *fnCtx) modSpec() (whole map[string]bool, precise map[string][]string) {
+	if c.modWhole != nil {
+		return c.modWhole, c.modPrecise
+	}
+	ci := calleeInfo{key: c.g.funcKey[c.fn], fn: c.fn, con: c.con, sig: c.fn.Signature}
+	for _, p := range c.fn.Params {
+		ci.names = append(ci.names, p.Name())
+		ci.ptypes = append(ci.ptypes, p.Type())
+	}
+	whole = map[string]bool{}
+	precise = map[string][]string{}
+	env := c.newEnv(c.entry, c.entry)
+	for _, m := range c.con.Modifies {
+		if strings.HasPrefix(m, "g_") {
+			continue
+		}
+		done := false
+		if strings.HasPrefix(m, "*") {
+			if root, ok := c.paramVals[m[1:]]; ok && root.K == KRef {
+				if pt, ok := root.T.Underlying().(*types.Pointer); ok {
+					for _, l := range c.leafLocs(root.S, pt.Elem()) {
+						precise[l.comp] = append(precise[l.comp], l.ref)
+					}
+					done = true
+				}
+			}
+		} else if !strings.HasSuffix(m, "[*]") && !strings.HasPrefix(m, "$mem:") && !strings.HasPrefix(m, "$ghost:") {
+			parts := strings.Split(m, ".")
+			if root, ok := c.paramVals[parts[0]]; ok && len(parts) >= 2 {
+				if locs, ok := env.selectorLocs(root, parts[1:]); ok {
+					for _, l := range locs {
+						precise[l.comp] = append(precise[l.comp], l.ref)
+					}
+					done = true
+				}
+			}
+		}
+		if !done {
+			for _, comp := range c.modItemComps(ci, m) {
+				whole[comp] = true
+			}
+		}
+	}
+	c.modWhole, c.modPrecise = whole, precise
+	return
+}
+
+// frameCond: r existed on entry and is not one of the places comp may change.
+func (c *fnCtx) frameCond(comp, r string, precise map[string][]string) string {
+	pre := []string{app("<=", app("rootid", r), "top!0")}
+	for _, ref := range precise[comp] {
+		pre = append(pre, sNot(sEq(r, ref)))
+	}
+	return sAnd(pre...)
+}
+
 func (c *fnCtx) frameObligations(normal []retSite) {
 	ci := calleeInfo{key: c.g.funcKey[c.fn], fn: c.fn, con: c.con, sig: c.fn.Signature}
 	for _, p := range c.fn.Params {
@@ -1182,7 +1275,6 @@ func (c *fnCtx) frameObligations(normal []retSite) {
 		sks = append(sks, sk{k, x})
 	}
 	for _, r := range normal {
-		var goals []string
 		for _, s := range sks {
 			srt := c.compSort(s.comp)
 			h0 := c.comp(c.entry, s.comp, srt)
@@ -1194,13 +1286,10 @@ func (c *fnCtx) frameObligations(normal []retSite) {
 			for _, ref := range precise[s.comp] {
 				pre = append(pre, sNot(sEq(s.x, ref)))
 			}
-			goals = append(goals, sImp(sAnd(pre...), sEq(app("select", h1, s.x), app("select", h0, s.x))))
+			goal := sImp(sAnd(pre...), sEq(app("select", h1, s.x), app("select", h0, s.x)))
+			st := r.st.clone()
+			c.oblige(st, "frame:"+s.comp, goal, "modifies "+strings.Join(c.con.Modifies, ", ")+": "+s.comp+" is unchanged at every location that existed on entry", c.propsFor(nil), r.pos)
 		}
-		if len(goals) == 0 {
-			continue
-		}
-		st := r.st.clone()
-		c.oblige(st, "frame", sAnd(goals...), "modifies "+strings.Join(c.con.Modifies, ", ")+" (everything else unchanged)", c.propsFor(nil), r.pos)
 	}
 }
 
